@@ -263,8 +263,54 @@ def s6(ctx, rep):
     rep.put(n == 0, "S6", "external_api", "syne_tune.experiments imports under the installed numpy (default arguments)", None, None, "")
 
 
+def s1b(ctx, rep):
+    """the log sees what the scheduler sees: every result handed to scheduler.on_trial_result goes to every callback's
+    on_trial_result in the same iteration, with the same trial, result and the decision just taken; a results callback is
+    installed by default; the csv file is written whenever its path is known"""
+    from ..engine import deref
+    from .common import require_guard, call_nodes
+    P = ctx.P
+    f = P.method("Tuner", "_update_running_trials")
+    cfg = cfg_of(f)
+    sch = [(n, c) for n, c in call_nodes(ctx, f, lambda c: fn_name(c) == "on_trial_result" and "scheduler" in U(c.func))]
+    cbs = [(n, c) for n, c in call_nodes(ctx, f, lambda c: fn_name(c) == "on_trial_result" and "scheduler" not in U(c.func))]
+    if len(sch) != 1 or len(cbs) != 1:
+        raise AnchorError("Tuner._update_running_trials: scheduler.on_trial_result / callback.on_trial_result calls not found")
+    (sn, sc), (cn, cc) = sch[0], cbs[0]
+    # the callback call sits in a loop over self.callbacks
+    heads = [l for l in cfg.nodes if l.kind == "for" and U(deref(f, l.ast.iter)) == "self.callbacks" and any(x is cc for st in stmts_in(l.ast.body) for x in ast.walk(st))]
+    outer = [l.id for l in cfg.nodes if l.kind == "for" and any(x is sc for st in stmts_in(l.ast.body) for x in ast.walk(st))]
+    ok = len(heads) == 1 and bool(outer) and U(cc.func.value) == U(heads[0].ast.target)
+    if ok:
+        # from the scheduler call, every path back to the head of the results loop passes the callback loop
+        ok = cfg.path([s_ for s_, l in cfg.succ[sn]], outer[-1], deleted={heads[0].id}, skip_labels=("exc",)) is None and \
+            cfg.path([s_ for s_, l in cfg.succ[heads[0].id] if l == "iter"], heads[0].id, deleted={cn}, skip_labels=("exc",)) is None
+    rep.put(ok, "S1", "must_follow", "Tuner._update_running_trials: every result given to the scheduler is given to every callback", f, cc, "",
+            "a result reaches the scheduler but not (all of) the callbacks: the results log misses rows the scheduler acted on")
+    dv = [U(n.ast.targets[0]) for n in cfg.nodes if n.kind == "stmt" and isinstance(n.ast, ast.Assign) and n.id == sn]
+    same = all(kwarg(cc, k, i) is not None and kwarg(sc, k, i) is not None and U(deref(f, kwarg(cc, k, j))) == U(deref(f, kwarg(sc, k, i)))
+               for k, i, j in (("trial", 0, 0), ("result", 1, 2)))
+    okd = bool(dv) and kwarg(cc, "decision", 3) is not None and U(kwarg(cc, "decision", 3)) == dv[0]
+    rep.put(same and okd, "S1", "agreement", "Tuner._update_running_trials: the callbacks get the same trial and result as the scheduler, and its decision", f, cc, "",
+            "the row that is logged belongs to another trial / result / decision than the one the scheduler was given")
+    g = P.method("Tuner", "_init_callbacks")
+    nodes = [n for n, c in call_nodes(ctx, g, lambda c: fn_name(c) == "_default_callback")]
+    require_guard(ctx, rep, "S1", g, "Tuner._init_callbacks: the default results callback is installed | no callbacks were given", nodes,
+                  [("callbacks is None", lambda a: a[0] == "is" and a[2] == "None" and a[3] is True and a[1] == g.params[1])],
+                  "a tuner built without callbacks writes no results (or the caller's callbacks are replaced)")
+    d = P.method("Tuner", "_default_callback")
+    okdc = any(isinstance(r.value, ast.Call) and fn_name(r.value) == "StoreResultsCallback" for r in returns_of(d))
+    rep.put(okdc, "S1", "agreement", "Tuner._default_callback is a StoreResultsCallback", d, None, "")
+    sr = P.method("StoreResultsCallback", "store_results")
+    nodes = [n for n, c in call_nodes(ctx, sr, lambda c: fn_name(c) == "to_csv")]
+    require_guard(ctx, rep, "S3", sr, "StoreResultsCallback.store_results: the table is written | the csv path is known", nodes,
+                  [("self.csv_file is not None", lambda a: a[0] == "is" and a[1] == "self.csv_file" and a[3] is False)],
+                  "results are written only when no path is set (never), or to path None")
+
+
 def run(ctx, rep, tier="quick"):
     c02.s8(ctx, rep, clause="S1")
+    s1b(ctx, rep)
     s2(ctx, rep)
     s3(ctx, rep)
     s4(ctx, rep)
